@@ -1,7 +1,102 @@
-(* C17 - placeholder replaced by the real statements (kept compiling at every commit). *)
-From Coq Require Import ZArith.
-From Verif Require Import Num.Amount Base.RhaProofs Base.Rha.
+(* C17 - Totals are symmetric under negation and independent of line order.
+   Property theorems only (proofs in Calc/NegProofs.v, Calc/PermProofs.v); vocabulary in
+   Calc/Symmetry.v (neg_doc, invert_doc, invert, remove_included_taxes, as_input) and
+   Calc/NegSpec.v (result_neg, totals_neg).  Both rounding rules, every document. *)
+From Coq Require Import ZArith List Bool String Permutation.
+From Verif Require Import Base.Wire Base.Rha Base.RhaProofs Num.Amount Calc.Doc Calc.Calc Calc.Merge Calc.Symmetry
+  Calc.NegSpec Calc.NegProofs Calc.PermProofs.
+Import ListNotations.
 Open Scope Z_scope.
+
+(* rounding half away from zero is an odd function: the root of the symmetry *)
 Theorem rounding_is_odd n d : 0 < d -> rha (- n) d = - rha n d.
 Proof. exact (rha_neg n d). Qed.
 Print Assumptions rounding_is_odd.
+
+(* negating every signed input (quantities, fixed amounts, bases, charge quantities, advances, due
+   amounts, rounding) negates every line total, tax amount and document total - and nothing else *)
+Theorem calculation_commutes_with_negation d : calculate (neg_doc d) = result_neg (calculate d).
+Proof. exact (calculate_negate d). Qed.
+Print Assumptions calculation_commutes_with_negation.
+
+Theorem negating_twice_restores d : neg_doc (neg_doc d) = d /\ calculate (neg_doc (neg_doc d)) = calculate d.
+Proof. exact (conj (neg_doc_involutive d) (f_equal calculate (neg_doc_involutive d))). Qed.
+Print Assumptions negating_twice_restores.
+
+(* Invoice.Invert (invert_doc: like neg_doc but due-date amounts are kept and the stored totals,
+   with the external rounding, are dropped): the recalculated figures are exactly the negated ones *)
+Theorem invert_produces_negated_figures d :
+  d_rounding d = None -> drop_dues (calculate (invert_doc d)) = drop_dues (result_neg (calculate d)).
+Proof. exact (invert_doc_negates d). Qed.
+Print Assumptions invert_produces_negated_figures.
+
+(* ... so Invert succeeds (its payable check passes) whenever re-reading the calculated document is a
+   fixpoint for payable - C04, which fails only for fixed amounts with excess decimals *)
+Theorem invert_succeeds_on_fixpoints d t0 d1 t1 :
+  calculate d = Totals t0 -> as_input d = Some d1 -> d_rounding d = None ->
+  calculate d1 = Totals t1 -> t_payable t1 = t_payable t0 ->
+  exists t2, invert d = Inverted t2 /\ drop_dues (Totals t2) = drop_dues (Totals (totals_neg t1)).
+Proof. exact (invert_succeeds d t0 d1 t1). Qed.
+Print Assumptions invert_succeeds_on_fixpoints.
+
+(* the behaviour before the repair (bases and explicit charge quantities not negated): refuted *)
+Theorem invert_shipped_refuted :
+  exists d, d_rounding d = None /\
+            drop_dues (calculate (invert_doc_shipped d)) <> drop_dues (result_neg (calculate d)).
+Proof.
+  exists (mkDoc 2 false [] 1
+            [mkLine (mkA 1 0) (mkItem (mkA 10000 2) None []) []
+                    [mkLdc (mkA 0 0) (Some (mkA 10 2)) (Some (mkA 5000 2)) None None] [] []]
+            [] [] [] [] [] None).
+  split; [reflexivity|]. vm_compute. discriminate.
+Qed.
+Print Assumptions invert_shipped_refuted.
+
+(* row order: the accumulator is commutative, each line is calculated on its own *)
+Theorem accumulation_is_order_independent cr s x y : acc_rr cr (acc_rr cr s x) y = acc_rr cr (acc_rr cr s y) x.
+Proof. exact (acc_rr_comm cr s x y). Qed.
+Print Assumptions accumulation_is_order_independent.
+
+Theorem document_sum_and_line_figures_independent_of_line_order cr c cur rates ls ls' lcs :
+  Permutation ls ls' -> calc_lines cr c cur rates ls = Some lcs ->
+  exists lcs', calc_lines cr c cur rates ls' = Some lcs' /\ Permutation lcs lcs' /\
+               fold_left acc (map lc_total lcs') (zero_of c) = fold_left acc (map lc_total lcs) (zero_of c).
+Proof. exact (document_sum_independent_of_line_order cr c cur rates ls ls' lcs). Qed.
+Print Assumptions document_sum_and_line_figures_independent_of_line_order.
+
+Theorem discount_charge_advance_totals_independent_of_row_order c xs ys :
+  Permutation xs ys -> sum_opt c xs = sum_opt c ys.
+Proof. exact (row_totals_independent_of_order c xs ys). Qed.
+Print Assumptions discount_charge_advance_totals_independent_of_row_order.
+(* NOT PROVED (kept visible): invariance of the tax groups under row permutation
+     Permutation tls tls' -> base_totals cr c tls' is base_totals cr c tls up to the order of categories
+     and groups and up to the textual precision of a group's percentage (first-fit grouping takes the
+     text of the first row).  Covered by the relational harness (tools/props/c17.py) only. *)
+
+(* RemoveIncludedTaxes: "payable equals the original total with tax" is FALSE of the faithful model
+   (the residue is computed from presented totals but added to the unrounded total) - known finding *)
+Theorem remove_included_taxes_payable_refuted :
+  exists d t0 t, calculate d = Totals t0 /\ remove_included_taxes d = RitDone t /\
+                 equals (t_payable t) (t_twt t0) = false.
+Proof.
+  exists (mkDoc 0 false (bs "VAT") 1
+            [mkLine (mkA 5 1) (mkItem (mkA 157878 0) None []) [] [] [] []]
+            []
+            [mkDdc (mkA 0 0) (Some (mkA 125 3)) (Some (mkA 13592 0)) [mkCombo (bs "VAT") [] [] (Some (mkA 6 2)) None false []];
+             mkDdc (mkA 6105 0) None None [mkCombo (bs "VAT") [] [] (Some (mkA 24 2)) None false []]]
+            [] [] [] None).
+  eexists. eexists. split; [vm_compute; reflexivity|]. split; [vm_compute; reflexivity|]. vm_compute. reflexivity.
+Qed.
+Print Assumptions remove_included_taxes_payable_refuted.
+
+(* non-vacuity: a document with ties, a discount with base and a rate charge with explicit quantity *)
+Example negation_example :
+  let d := mkDoc 2 false [] 1
+             [mkLine (mkA 5 1) (mkItem (mkA 1005 2) None []) []
+                     [mkLdc (mkA 0 0) (Some (mkA 10 2)) (Some (mkA 5000 2)) None None]
+                     [mkLdc (mkA 0 0) None None (Some (mkA 125 3)) (Some (mkA 3 0))]
+                     [mkCombo (bs "VAT") [] [] (Some (mkA 210 3)) None false []]]
+             [] [] [] [] [] None in
+  exists t, calculate d = Totals t /\ t_payable t = mkA 48 2 /\
+            calculate (invert_doc d) = Totals (totals_neg t).
+Proof. cbv zeta. eexists. split; [vm_compute; reflexivity|]. split; vm_compute; reflexivity. Qed.
